@@ -307,6 +307,19 @@ fn fill(tier: Tier, acc: &mut Acc) {
     // ---- Σ_C: statement chains with a marker expression, in every function kind
     let marker = vec![("mark".to_string(), expr_stmt(bin("Add", "+", 5, 5, 4, var("m1"), var("m2"))))];
     let fk = func_kinds();
+    // increments / decrements as innermost statements (the unchecked exemption is about nesting)
+    let incdec = vec![
+        ("preinc".to_string(), expr_stmt(nodep("PreIncrement", 2, vec![T("++"), C(var("k"))]))),
+        ("postdec".to_string(), expr_stmt(nodep("PostDecrement", 0, vec![C(var("k")), T("--")]))),
+    ];
+    for depth in 1..=2 {
+        for (n, f) in stmt_chains(&salts, &simples, depth, &incdec) {
+            acc.add("Ci", n.clone(), in_func(f.clone()));
+            // the same chain inside an unchecked block, followed by a sibling after it
+            let u = node("Block", vec![T("unchecked"), T("{"), C(f), C(expr_stmt(nodep("PreDecrement", 2, vec![T("--"), C(var("j"))]))), T("}")]);
+            acc.add("Ci", format!("unchecked<-{}", n), in_func(u));
+        }
+    }
     for depth in 1..=2 {
         for (n, f) in stmt_chains(&salts, &simples, depth, &marker) {
             for (kn, kw) in &fk {
